@@ -7,6 +7,8 @@ mod gen;
 mod history;
 mod jt;
 mod keys;
+#[cfg(feature = "mock")]
+mod mock;
 mod msg;
 mod replay;
 mod rich;
@@ -48,6 +50,8 @@ fn main() {
             &mut ctx,
             &attack::AttackOpts { n: num("n", 2) as usize, seed: num("seed", 1), family: get("family", "all"), stride: num("stride", 7) as usize, both_formats: get("both", "1") == "1" },
         ),
+        #[cfg(feature = "mock")]
+        "mock" => mock::run(&mut ctx, num("n", 100) as usize, num("seed", 1), num("depth", 4) as u32),
         "threads" => {
             // --configs "1x200,4x200,16x100": threads x issuances per thread; or scaled from a model scenario file
             let mut cfgs: Vec<(usize, usize)> = get("configs", "").split(',').filter(|s| !s.is_empty()).map(|c| { let mut p = c.split('x'); (p.next().unwrap().parse().unwrap(), p.next().unwrap().parse().unwrap()) }).collect();
